@@ -932,8 +932,39 @@ namespace bloch::runtime {
             rc->isAbstract = clsNode->isAbstract;
             m_classTable[rc->name] = rc;
         }
-        // populate members
+        // A class copies its base's field layout and vtable when it is populated, so bases must
+        // be laid out first whatever the declaration order. Generic templates are walked only to
+        // reach their own bases; they are instantiated on demand below.
+        std::unordered_map<std::string, compiler::ClassDeclaration*> declByName;
         for (auto& clsNode : program.classes) {
+            if (clsNode)
+                declByName.emplace(clsNode->name, clsNode.get());
+        }
+        std::vector<compiler::ClassDeclaration*> layoutOrder;
+        std::unordered_set<compiler::ClassDeclaration*> visited;
+        std::function<void(compiler::ClassDeclaration*)> visit =
+            [&](compiler::ClassDeclaration* decl) {
+                if (!decl || !visited.insert(decl).second)
+                    return;
+                std::string baseName;
+                if (decl->baseType) {
+                    auto named = dynamic_cast<NamedType*>(decl->baseType.get());
+                    if (named && !named->nameParts.empty())
+                        baseName = named->nameParts.back();
+                } else if (!decl->baseName.empty()) {
+                    baseName = decl->baseName.back();
+                } else if (!decl->isStatic && decl->name != "Object") {
+                    baseName = "Object";
+                }
+                auto baseIt = declByName.find(baseName);
+                if (baseIt != declByName.end())
+                    visit(baseIt->second);
+                if (decl->typeParameters.empty())
+                    layoutOrder.push_back(decl);
+            };
+        for (auto& clsNode : program.classes) visit(clsNode.get());
+        // populate members
+        for (auto& clsNode : layoutOrder) {
             if (!clsNode || !clsNode->typeParameters.empty())
                 continue;  // generic templates handled lazily
             RuntimeClass* rc = findClass(clsNode->name);
